@@ -431,3 +431,70 @@ def run(ctx):
         ck.ob("C17-X", ESC, "pairs-and-lists-over-syntax-relevant-characters", pb == 0, detail="%d patterns, %d failures" % (npairs, pb))
         ck.analysed["thorough_scalars"] = n
         ck.analysed["thorough_patterns"] = npairs
+    cli_exclude_rule(ctx, ck, "C17-R5")
+    unit_writer_rule(ctx, ck)
+
+
+def cli_exclude_rule(ctx, ck, rid):
+    """the --exclude option is declared so that clap hands each occurrence's value over verbatim: nothing in its builder
+    chain splits, validates, defaults or rewrites values"""
+    from .. import mir
+    b = ctx.body("main")
+    allowed = {"new", "long", "short", "takes_value", "value_name", "multiple_occurrences", "help_heading", "help", "long_help", "display_order", "hide", "next_line_help", "required"}
+    chains = {}
+    try:
+        paths = mir.Walker(b, max_paths=400).walk(0)
+    except mir.TooManyPaths:
+        paths = []
+    evs = [e for p in paths[:3] for e in p.events if e.kind == "call" and "clap::Arg::" in e.a]
+    if not evs:
+        # main is large: scan the call terminators and evaluate the receiver chain symbolically
+        for i, name, t in b.calls():
+            if "clap::Arg::" in name and mir.method_name(name) != "new":
+                term = mir.Evaluator(b, None).call_term(t, i)
+                evs.append(type("E", (), {"a": name, "c": term, "b": term[2]})())
+    for e in evs:
+        t = e.c
+        meths = []
+        root = None
+        for _ in range(30):
+            if isinstance(t, tuple) and t and t[0] == "call" and "clap::Arg::" in t[1]:
+                m = mir.method_name(t[1])
+                meths.append((m, t[2][1:] if len(t[2]) > 1 else ()))
+                if m == "new":
+                    root = t[2][0] if t[2] else None
+                    break
+                t = t[2][0]
+            else:
+                break
+        lit = root[1][1] if isinstance(root, tuple) and root and root[0] == "const" and isinstance(root[1], tuple) and root[1][0] == "str" else None
+        if lit == "exclude":
+            key = id(root)
+            chains.setdefault(len(meths), [])
+            chains[len(meths)].append(meths)
+    full = [c for n in sorted(chains, reverse=True) for c in chains[n]][:1] if chains else []
+    every = [m for cs in chains.values() for c in cs for m, a in c]
+    extra = sorted(set(every) - allowed)
+    ck.ob(rid, "main", "--exclude-is-declared-without-value-splitting/validation/defaults(clap-hands-each-value-over-verbatim)", bool(every) and not extra,
+          detail=None if (every and not extra) else ("builder methods outside the reviewed set: %s" % extra if every else "no Arg::new('exclude') chain found"))
+    ck.analysed["exclude_arg_builder_methods"] = sorted(set(every))
+
+
+def unit_writer_rule(ctx, ck):
+    from .. import mir
+    fn = "udev_utils::write_systemd_service"
+    b = ctx.body(fn)
+    ex = mir.T("param", 1, b.dbg.get(1, ""))
+    ok = False
+    why = "no write of the unit text found"
+    for p in mir.walk_function(b):
+        for e in p.events:
+            if e.kind == "call" and mir.method_name(e.a) in ("write", "write_all") and len(e.b) == 2 and "OpenOptions" not in e.a:
+                data = mir.strip(e.b[1])
+                while isinstance(data, tuple) and data and data[0] == "call" and mir.method_name(data[1]) in ("as_bytes", "as_str", "deref", "as_ref", "borrow"):
+                    data = mir.strip(data[2][0])
+                if isinstance(data, tuple) and data[0] == "call" and data[1] == "udev_utils::build_service_text" and mir.strip(data[2][0]) == ex:
+                    ok, why = True, None
+                else:
+                    ok, why = False, "the bytes written are %s, not build_service_text(excludes) itself" % mir.show(data)[:100]
+    ck.ob("C17-R4", fn, "the-unit-file-receives-build_service_text(excludes)-byte-for-byte", ok, detail=why)
